@@ -69,6 +69,14 @@ func decorate(t *rapid.T, v interface{}, prefix string) {
 		if r == 1 {
 			x["#text"] = rapid.SampledFrom(scalarStrings).Draw(t, "tv")
 		}
+		if r == 2 && rapid.Bool().Draw(t, "textcontainer") {
+			// JSON-only shapes: a container under the text key
+			if rapid.Bool().Draw(t, "textlist") {
+				x["#text"] = []interface{}{"x", instScalar(t), map[string]interface{}{"k": "y"}}
+			} else {
+				x["#text"] = map[string]interface{}{"k": instScalar(t), "l": []interface{}{"z"}}
+			}
+		}
 	case []interface{}:
 		for _, vv := range x {
 			decorate(t, vv, prefix)
